@@ -172,8 +172,9 @@ def check_after(ctx, sess, o, k, kind, d, case):
     have = set(sess.initial) | {n for n, _ in o.accepted}
     sess2 = Session(sess.year, sess.forms, sess.initial, sess.answers, set(), sess.layout)
     o2 = run_session(sess2, d, initial_text=o.input_after)
-    if o2.exc is not None and not isinstance(o2.exc, (NotImplementedError,)) and type(o2.exc).__name__ not in ('InvalidInput',) and type(o2.exc) is not type(o.exc):
-        # the re-run has every answer it needs (nothing is interrupted): an error now comes from the file that was left behind
+    if o2.exc is not None and (isinstance(o2.exc, configparser.Error) or (isinstance(o2.exc, ValueError) and 'nterpolation' in str(o2.exc))):
+        # an error of the INI reader (not of the solve: a return that cannot be computed fails the same way when re-run):
+        # the file that habutax left behind cannot be read by habutax
         ctx.violation(f'{key}:rerun-raises:{type(o2.exc).__name__}', f'after {kind} at call {k}: re-running on the file that was left behind raised {o2.exc!r}', case)
         return
     again = [n for n, t in o2.calls if n in have]
